@@ -106,6 +106,10 @@ pub fn net_spec(c: &Config, horizon_s: u64) -> NetSpec {
         horizon_ns: horizon_s * SEC,
         delay_min_ns: 10_000,
         delay_max_ns: 900_000,
+        oscillators: vec![],
+        kalman: vec![],
+        per_frame: None,
+        tx_ts_latency_ns: 0,
     }
 }
 
